@@ -696,7 +696,7 @@ pub fn judge(case: &Case, l: &mut Local) {
     }
 }
 
-fn perms(n: usize) -> Vec<Vec<usize>> {
+pub fn perms(n: usize) -> Vec<Vec<usize>> {
     let mut out = Vec::new();
     let mut a: Vec<usize> = (0..n).collect();
     fn rec(k: usize, a: &mut Vec<usize>, out: &mut Vec<Vec<usize>>) {
